@@ -155,6 +155,9 @@ class Computable(BaseObservable):
             # remember the value that is handed to the evaluating Computed, not the
             # cached one from before this read
             CURRENT_COMPUTED._add_parent(instance, self.public_name, new_value)
+            # whatever this Computable depends on, the evaluating Computed depends on as
+            # well - also when the value was served from the cache and nothing was read now
+            PROCESSING_SIGNALS.update(computed._sources())
 
         if new_value != old_value:
             instance.notify(
@@ -219,6 +222,25 @@ class Computed:
             self.parents[parent][name] = current_value
         except KeyError:
             self.parents[parent] = {name: current_value}
+
+    def _sources(self, seen: set | None = None) -> set:
+        """Return the Observables this Computed depends on, also through Computables.
+
+        These are the Observables its function read at its last evaluation and, for the
+        Computables it read, the Observables those depend on in turn.
+        """
+        seen = set() if seen is None else seen
+        sources = set()
+        if id(self) not in seen:
+            seen.add(id(self))
+            for parent, names in self.parents.items():
+                for name in names:
+                    entry = getattr(parent, f"_{name}", None)
+                    if isinstance(entry, Computed):
+                        sources |= entry._sources(seen)
+                    else:
+                        sources.add(_hashable_signal(parent, name))
+        return sources
 
     def _remove_parents(self):
         """Remove all parent Observables."""
